@@ -390,7 +390,7 @@ func main() {
 		},
 		Cases: func(tier string) int {
 			if tier == "thorough" {
-				return 100000
+				return 60000
 			}
 			return 3000
 		},
